@@ -189,7 +189,7 @@ SPECS: dict[str, dict] = {
 # PiShape = h * SShape(bottom_left, top_left)(x) * ZShape(top_right, bottom_right)(x): the product of the two definitions, piece by piece
 _S = [("x <= a", "0"), ("x <= (a + b) / 2", "2 * ((x - a) / (b - a)) ** 2"), ("x < b", "1 - 2 * ((x - b) / (b - a)) ** 2"), ("True", "1")]
 _Z = [("x <= c", "1"), ("x < (c + d) / 2", "1 - 2 * ((x - c) / (d - c)) ** 2"), ("x < d", "2 * ((x - d) / (d - c)) ** 2"), ("True", "0")]
-SPECS["PiShape"] = {"names": {"a": "bottom_left", "b": "top_left", "c": "top_right", "d": "bottom_right"}, "valid": "a <= b <= c <= d",
+SPECS["PiShape"] = {"names": {"a": "bottom_left", "b": "top_left", "c": "top_right", "d": "bottom_right"}, "valid": "a <= b and c <= d",  # the documented product of the two edges: nothing orders the edges among themselves
                     "cases": [(f"({cs}) and ({cz})", f"h * ({vs}) * ({vz})") for i_, (cs, vs) in enumerate(_S) for j_, (cz, vz) in enumerate(_Z)]}
 # (first match wins on the product list only if the S cases are tried in order for each Z case: make the conditions exclusive)
 SPECS["PiShape"]["cases"] = [
@@ -199,7 +199,8 @@ SPECS["PiShape"]["cases"] = [
 NAN_BY_DESIGN = {
     "Ramp": "start == end is answered with NaN on purpose (the mask `(start < end) == (start > end)`); the definition is stated for start != end",
 }
-INFINITE_OK = {"Triangle": {"left": -1, "right": +1}, "Trapezoid": {"bottom_left": -1, "bottom_right": +1}}  # documented infinite shoulders
+INFINITE_OK = {"Triangle": {"left": -1, "right": +1}, "Trapezoid": {"bottom_left": -1, "bottom_right": +1},  # documented infinite shoulders
+               "Rectangle": {"start": -1, "end": +1}}  # `s <= x <= e` is meaningful for an open-ended rectangle
 
 
 _OT_CACHE: dict = {}  # (class, flattened kernel term, argument) -> per-order-type results: the result is a function of the term alone
@@ -382,6 +383,8 @@ def order_type_rules(check: Check) -> None:
             # exact comparison on this piece
             n_exact_tried += 1
             alg = make_algebra(lf)
+            alg.witness = _Witness(numeric_witness(lf, {H: 0.75}))  # where the order type leaves a min / max of two curves open it is decided at this point
+            alg.witness_only = False
             try:
                 try:
                     rc = exact_value(code, ev, alg)
@@ -401,7 +404,10 @@ def order_type_rules(check: Check) -> None:
                     differs.append((where, "nan" if rc == "nan" else rc.show(alg.name(short)), "nan" if rs == "nan" else rs.show(alg.name(short))))
                 continue
             if rc.equals(rs):
-                n_exact += 1
+                if alg.witness_only:
+                    undecided.append((where, "equal at the witness; a min / max of two curves is not ordered by the order type"))
+                else:
+                    n_exact += 1
                 continue
             w = _Witness(numeric_witness(lf, {H: 0.75}))
             a_, b_ = alg.evaluate(rc, w), alg.evaluate(rs, w)
